@@ -22,9 +22,10 @@ type vFollower struct {
 	pingFail bool
 	rebFail  bool
 	closed   bool
+	closeErr error // what closing the connection to this follower reports
 }
 
-func (f *vFollower) Close() error      { f.closed = true; return nil }
+func (f *vFollower) Close() error      { f.closed = true; return f.closeErr }
 func (f *vFollower) Ping() error {
 	if f.pingFail {
 		return errors.New("ping failed")
@@ -178,4 +179,68 @@ func H_C10_leader() {
 	setHorizon(nowNs() + int64(time.Minute))
 	quiesce()
 	cover("leader")
+}
+
+// H_C10_drop: a follower dies silently (its pings fail from now on; closing the
+// broken connection may itself report an error). Within one heart-beat round
+// and the monitor round after it the leader has dropped it: it is no longer
+// listed, the group size is that of the live set, and the survivors hold
+// 2..n in join order.
+func H_C10_drop() {
+	setMerge(true)
+	setPreempt(0)
+	n := 2 + choose("followers", 2) // 2..3 followers before the death
+	cfg := &config.Dcp{}
+	cfg.Dcp.Group.Membership.RebalanceDelay = time.Second
+	bus := &vBus{}
+	sd := NewServiceDiscovery(cfg, bus).(*serviceDiscovery)
+	var log []vRebalanceCall
+	names := []string{"f0", "f1", "f2"}
+	fs := make([]*vFollower, n)
+	for i := 0; i < n; i++ {
+		fs[i] = &vFollower{name: names[i], log: &log}
+		sd.Add(NewService(fs[i], names[i], int64(10*(i+1))))
+	}
+	sd.BeLeader()
+	sd.StartHeartbeat()
+	sd.StartMonitor()
+	time.Sleep(6100 * time.Millisecond) // first monitor round: everybody numbered
+	assert(len(log) == n, "every follower numbered in the first round")
+	victim := choose("victim", n)
+	fs[victim].pingFail = true
+	fs[victim].rebFail = true
+	if nondetBool("close-reports-an-error") {
+		fs[victim].closeErr = errors.New("connection reset by peer")
+		cover("close-error")
+	}
+	before := len(log)
+	time.Sleep(10 * time.Second) // two more heart-beat and monitor rounds
+	got := sd.GetAll()
+	assert(len(got) == n-1, "the dead follower is dropped within two rounds")
+	for _, g := range got {
+		assert(g != names[victim], "the dead follower is no longer listed")
+	}
+	// the last round numbered exactly the survivors, 2..n in join order, with the live group size
+	last := log[before:]
+	rank := 0
+	for i := 0; i < n; i++ {
+		if i == victim {
+			continue
+		}
+		var lastCall *vRebalanceCall
+		for k := range last {
+			if last[k].name == names[i] {
+				lastCall = &last[k]
+			}
+		}
+		assert(lastCall != nil, "survivor renumbered after the death")
+		assert(lastCall.member == rank+2 && lastCall.total == n, "survivors hold 2..n in join order, group size = live set")
+		rank++
+	}
+	assert(bus.published[len(bus.published)-1].TotalMembers == n, "the leader announces the live group size")
+	sd.StopMonitor()
+	sd.StopHeartbeat()
+	setHorizon(nowNs() + int64(time.Minute))
+	quiesce()
+	cover("dropped")
 }
